@@ -1,9 +1,744 @@
-ID = "C16"; PROPS = "Props/C16.v"; EXTRACT = "extract/ExC16.v"; OBLIGATION = "time"
-THEOREMS = []
-def gen(rng, tier): return []
-def nontrivial(c): return True
-def impl(c): return {}
-def requests(c): return []
-def model(c, r): return {}
-def oracle(c, i, m): return None
-def compare(c, i, m): return None
+"""C16 - timestamps and UTC offsets convert exactly in every direction
+(swh/model/model.py Timestamp / TimestampWithTimezone, git_objects.format_date).
+
+Tie: every case is run through /repo's classes and through the extracted model
+(coq/model/Time.v).  Compared: seconds, microseconds, offset_bytes,
+offset_minutes(), format_date bytes, the date part of format_author_data,
+to_datetime() as (epoch microseconds, utcoffset seconds), exception classes
+(core.exc_class).  Where the model answers `Unmodelled` (offset bytes outside
+[+-][0-9]+) the corresponding observable is not compared.
+
+The property predicate is evaluated directly on the implementation (oracle):
+round trips, floor seconds, exact decimal text (integer arithmetic), `-0000`
+iff negative UTC, verbatim offset bytes, range rejection.
+"""
+import calendar
+import datetime as D
+import re
+import sys
+
+from . import core
+
+ID = "C16"
+PROPS = "Props/C16.v"
+EXTRACT = "extract/ExC16.v"
+OBLIGATION = "time"
+THEOREMS = [
+    "C16_datetime_roundtrip", "C16_datetime_instant_kept", "C16_offset_roundtrip", "C16_offset_roundtrip_sweep",
+    "C16_neg_flag_rejected", "C16_minus_zero_iff", "C16_offset_verbatim", "C16_format_date_exact",
+    "C16_range_rejected", "C16_iso8601_minus_zero", "C16_table_side_conditions", "C16_satisfiable",
+]
+RULE = ("seconds {range ends, +-1 around them, -1, 0, 1, random} x microseconds {0,1,10,100000,999999,500000,random,-1,10^6}; "
+        "aware datetimes with every fixed offset in +-1439 minutes (and some non-whole-minute ones), named zones from "
+        "zoneinfo (LMT and DST folds included) when tzdata is present; the whole 16-bit x negative_utc grid of "
+        "from_numeric_offset (131072 points, in ranges of 1024 offsets per case); dict forms (offset_bytes, legacy "
+        "offset/negative_utc, int, bool, missing keys, wrong types); ISO-8601 strings incl. -00:00; raw offset bytes in "
+        "[+-][0-9]+ incl. the 4300-digit int() limit.  non-trivial = non-zero microseconds, or an offset whose minute "
+        "part is not 0, or seconds < 0, or an error branch; distinct = distinct canonical case")
+TRUSTED = [
+    "CPython datetime arithmetic as modelled in model/Time.v: an aware datetime is (epoch_us, utcoffset seconds), valid iff "
+    "its wall clock lies in datetime.min..datetime.max; astimezone/replace/timestamp/fromtimestamp/timezone() have their "
+    "arithmetic meaning incl. OverflowError; .timestamp() of a whole-second aware datetime is an exact float (< 2^53)",
+    "iso8601.parse_date is an oracle: from_iso8601 is modelled from the parsed datetime and the flag tzname()=='-00:00'",
+    "CPython int(): on ASCII digit runs it is the decimal value, ValueError beyond sys.int_max_str_digits=4300 digits; "
+    "'%d', '{:02}', '%06d' are lib/Dec.v dec_Z / dec_pad; str.rstrip('0') is lib/DecPad.v rstrip0",
+]
+ASSUMPTIONS = [
+    "offset_minutes()/_parse_offset_bytes is modelled on offset bytes matching [+-][0-9]+ only; other bytes are kept "
+    "verbatim (proved) but their numeric reading is outside the model and the correspondence domain",
+    "negative_utc with a positive offset is outside the property's domain: the code's assert fires (proved and checked)",
+    "sub-second utcoffsets are not modelled; naive datetimes are modelled only as `ValueError`",
+]
+CASE_TIMEOUT = 60
+
+from swh.model.model import Person, Timestamp, TimestampWithTimezone as TSTZ  # noqa: E402
+from swh.model.git_objects import format_author_data, format_date  # noqa: E402
+
+try:
+    import zoneinfo
+    ZONES = sorted(zoneinfo.available_timezones())
+    # tzdata really readable?
+    zoneinfo.ZoneInfo("Europe/Paris")
+except Exception:  # pragma: no cover
+    zoneinfo = None
+    ZONES = []
+
+MIN_S, MAX_S = Timestamp.MIN_SECONDS, Timestamp.MAX_SECONDS
+MIN_US, MAX_US = Timestamp.MIN_MICROSECONDS, Timestamp.MAX_MICROSECONDS
+M = 10 ** 6
+EPOCH_NAIVE = D.datetime(1970, 1, 1)
+_td = D.datetime.min - EPOCH_NAIVE
+DT_MIN_US = (_td.days * 86400 + _td.seconds) * M + _td.microseconds
+_td = D.datetime.max - EPOCH_NAIVE
+DT_MAX_US = (_td.days * 86400 + _td.seconds) * M + _td.microseconds
+NOBODY = Person(fullname=b"", name=None, email=None)
+
+ERRMAP = {"TimestampOverflow": "ValueError", "AttributeType": "ValueError", "Value": "ValueError",
+          "Assertion": "AssertionError", "Key": "KeyError", "Overflow": "Other(OverflowError)",
+          "Unmodelled": "Unmodelled"}
+
+
+# ---------------------------------------------------------------- value encodings
+def pv(tok):
+    """pyval token -> Python value"""
+    if tok[0] == "i":
+        return int(tok[1:])
+    if tok == "bT":
+        return True
+    if tok == "bF":
+        return False
+    return {"o:none": None, "o:float": 1.5, "o:str": "12", "o:bytes": b"12"}[tok]
+
+
+def pv_tok(tok):
+    return "o" if tok.startswith("o") else tok
+
+
+def tsrepr_value(t):
+    """tsrepr token -> value of the "timestamp" member (or KeyError marker)"""
+    if t == "missing":
+        return None
+    if t.startswith("other"):
+        return pv("o:" + t.split(":")[1])
+    p = t.split(":")
+    if p[0] == "int":
+        return pv(p[1])
+    d = {}
+    a, b = t[len("dict:"):].split("|")
+    if a != "absent":
+        d["seconds"] = pv(a)
+    if b != "absent":
+        d["microseconds"] = pv(b)
+    return d
+
+
+def tsrepr_tok(t):
+    if t == "missing":
+        return "missing"
+    if t.startswith("other"):
+        return "other"
+    if t.startswith("int:"):
+        return "int:" + pv_tok(t[4:])
+    a, b = t[len("dict:"):].split("|")
+    return "dict:%s:%s" % (pv_tok(a) if a != "absent" else a, pv_tok(b) if b != "absent" else b)
+
+
+def mk_wall(wall_us):
+    return EPOCH_NAIVE + D.timedelta(microseconds=wall_us)
+
+
+def dt_of_case(c):
+    w = mk_wall(c["wall_us"])
+    if "zone" in c:
+        return w.replace(tzinfo=zoneinfo.ZoneInfo(c["zone"]), fold=c.get("fold", 0))
+    return w.replace(tzinfo=D.timezone(D.timedelta(seconds=c["off_s"])))
+
+
+def abstr(dt):
+    """aware datetime -> (epoch_us, off_s) by integer arithmetic; None for sub-second offsets"""
+    off = dt.utcoffset()
+    if off is None or off.microseconds:
+        return None
+    off_s = off.days * 86400 + off.seconds
+    td = dt.replace(tzinfo=None) - EPOCH_NAIVE
+    wall = (td.days * 86400 + td.seconds) * M + td.microseconds
+    return [wall - off_s * M, off_s]
+
+
+# ---------------------------------------------------------------- generators
+SEC_EDGE = [MIN_S, MAX_S, MIN_S - 1, MAX_S + 1, MIN_S + 1, MAX_S - 1, -1, 0, 1]
+US_POOL = [0, 1, 10, 100000, 999999, 500000, -1, 10 ** 6, 123456, 120000, 999990, 7]
+
+
+def rnd_sec(rng):
+    r = rng.random()
+    if r < 0.25:
+        return rng.choice(SEC_EDGE)
+    if r < 0.5:
+        return rng.randrange(MIN_S, MAX_S + 1)
+    if r < 0.7:
+        return rng.randrange(-10 ** 9, 2 * 10 ** 9)
+    if r < 0.85:
+        return rng.randrange(-100, 100)
+    return rng.choice([MIN_S, MAX_S]) + rng.randrange(-3, 4)
+
+
+def rnd_us(rng, valid_only=False):
+    r = rng.random()
+    if r < 0.5:
+        u = rng.choice(US_POOL)
+    elif r < 0.8:
+        u = rng.randrange(0, 10 ** 6)
+    else:
+        u = rng.randrange(1, 10 ** rng.randrange(1, 7)) * 10 ** rng.randrange(0, 6) % 10 ** 6
+    if valid_only and not (0 <= u < 10 ** 6):
+        u = 0
+    return u
+
+
+def rnd_off16(rng):
+    r = rng.random()
+    if r < 0.3:
+        return rng.choice([0, 1, -1, 59, 60, 61, -59, -60, -61, 330, -330, 1439, -1439, 1440, -1440, 5999, 6000,
+                           -5999, -6000, 32767, -32768, 32768, -32769, 40000, -40000])
+    return rng.randrange(-32768, 32768)
+
+
+def rnd_offset_bytes(rng):
+    r = rng.random()
+    sign = rng.choice(["+", "-"])
+    if r < 0.35:
+        return (sign + "%02d%02d" % (rng.randrange(0, 30), rng.randrange(0, 100))).encode()
+    if r < 0.6:
+        n = rng.choice([1, 2, 3, 4, 5, 6, 7, 12, 20])
+        return (sign + "".join(rng.choice("0123456789") for _ in range(n))).encode()
+    if r < 0.7:
+        return rng.choice([b"+0000", b"-0000", b"+0160", b"-0059", b"+54607", b"-54608", b"+54608", b"-54609", b"+2400",
+                           b"-2359", b"+200000000000000000", b"+02", b"-2", b"+200", b"-200", b"+0010", b"+9", b"-99",
+                           b"+99999", b"+0545", b"+1400", b"-1200"])
+    if r < 0.75 and sys.get_int_max_str_digits() == 4300:
+        n = rng.choice([4299, 4300, 4301, 4302, 4303, 4304])
+        return (sign + "0" * (n - 3) + "130").encode()
+    # outside the modelled domain: kept verbatim, numeric reading not compared
+    return rng.choice([b"", b"+", b"-", b"0000", b"+1 30", b"+-130", b"UTC", b"+01:30", b"\xff\xfe", b"+\xd9\xa1\xd9\xa2",
+                       b" +0100", b"+0100\n", b"+1_0", b"++100", b"+ 100", b"-0x10"])
+
+
+def valid_wall(w):
+    return DT_MIN_US <= w <= DT_MAX_US
+
+
+def gen_dt_fixed(rng, off_s):
+    """an aware datetime with that fixed offset; instants biased to the proof's case splits"""
+    r = rng.random()
+    if r < 0.45:
+        e = rnd_sec(rng) * M + rnd_us(rng, True)
+    elif r < 0.6:      # wall clock at the very ends of datetime
+        e = rng.choice([DT_MIN_US, DT_MAX_US, DT_MIN_US + rng.randrange(0, 3 * 86400 * M),
+                        DT_MAX_US - rng.randrange(0, 3 * 86400 * M)]) - off_s * M
+    elif r < 0.8:      # around the epoch, negative instants with microseconds (floor vs truncation)
+        e = rng.randrange(-5 * M, 5 * M)
+    else:
+        e = rng.randrange(MIN_S * M, (MAX_S + 1) * M)
+    w = e + off_s * M
+    if not valid_wall(w):
+        w = min(max(w, DT_MIN_US), DT_MAX_US)
+    return {"k": "dt", "wall_us": w, "off_s": off_s}
+
+
+def gen_dt_zone(rng):
+    z = rng.choice(ZONES)
+    r = rng.random()
+    if r < 0.6:
+        w = rng.randrange(-200 * 365 * 86400, 130 * 365 * 86400) * M + rnd_us(rng, True)   # 1770 .. 2100
+    elif r < 0.8:
+        w = rng.randrange(DT_MIN_US, DT_MAX_US + 1)
+    else:
+        w = rng.choice([DT_MIN_US, DT_MAX_US]) + rng.randrange(-2 * 86400 * M, 2 * 86400 * M)
+        w = min(max(w, DT_MIN_US), DT_MAX_US)
+    return {"k": "dt", "wall_us": w, "zone": z, "fold": rng.randrange(2)}
+
+
+def gen_iso(rng):
+    y = rng.choice([1, 2, 1969, 1970, 1971, 2000, 2024, 9999, rng.randrange(1, 10000)])
+    m = rng.randrange(1, 13)
+    d = rng.randrange(1, calendar.monthrange(y, m)[1] + 1) if y >= 1 else 1
+    H, Mi, S = rng.randrange(24), rng.randrange(60), rng.randrange(60)
+    frac = ""
+    if rng.random() < 0.6:
+        frac = "".join(rng.choice("0123456789") for _ in range(rng.randrange(1, 7)))
+    tzk = rng.choice(["Z", "", "-00:00", "+00:00", "-0000", "-00", "hm", "hm", "hm", "hhmm", "hh"])
+    if tzk in ("hm", "hhmm", "hh"):
+        sg, th, tm = rng.choice("+-"), rng.randrange(24), rng.choice([0, 0, 30, 45, rng.randrange(60)])
+        tz = {"hm": "%s%02d:%02d" % (sg, th, tm), "hhmm": "%s%02d%02d" % (sg, th, tm), "hh": "%s%02d" % (sg, th)}[tzk]
+        if tzk == "hh":
+            tm = 0
+        off_min = (th * 60 + tm) * (1 if sg == "+" else -1)
+    else:
+        tz, off_min = tzk, 0
+    s = "%04d-%02d-%02d%s%02d:%02d:%02d%s%s" % (y, m, d, rng.choice("T "), H, Mi, S, "." + frac if frac else "", tz)
+    wall_s = calendar.timegm((y, m, d, H, Mi, S)) if y >= 1 else 0
+    return {"k": "iso", "str": s, "exp_epoch_s": wall_s - off_min * 60, "exp_us": int((frac + "000000")[:6]) if frac else 0,
+            "exp_off": off_min, "minus0": tz in ("-00:00", "-0000", "-00")}
+
+
+OTHERS = ["o:none", "o:float", "o:str", "o:bytes"]
+
+
+def rnd_pv(rng, v):
+    """mostly the int itself, sometimes a bool / other object in its place"""
+    r = rng.random()
+    if r < 0.9:
+        return "i%d" % v
+    if r < 0.95:
+        return rng.choice(["bT", "bF"])
+    return rng.choice(OTHERS)
+
+
+def rnd_tsrepr(rng):
+    r = rng.random()
+    s, u = rnd_sec(rng), rnd_us(rng)
+    if r < 0.55:
+        a = rnd_pv(rng, s) if rng.random() < 0.9 else "absent"
+        b = rnd_pv(rng, u) if rng.random() < 0.8 else "absent"
+        return "dict:%s|%s" % (a, b)
+    if r < 0.85:
+        return "int:" + (("i%d" % s) if rng.random() < 0.9 else rng.choice(["bT", "bF"]))
+    if r < 0.93:
+        return "other:" + rng.choice(["none", "float", "str"])
+    return "missing"
+
+
+def gen(rng, tier):
+    quick = tier == "quick"
+    cases = []
+    # 1. the whole 16-bit x flag grid, both tiers
+    for lo in range(-32768, 32768, 1024):
+        cases.append({"k": "grid", "lo": lo, "n": 1024})
+    cases.append({"k": "grid", "lo": -33000, "n": 232})       # just outside the range: the assert fires
+    cases.append({"k": "grid", "lo": 32768, "n": 232})
+    # 2. Timestamp construction, format_date
+    for s in SEC_EDGE:
+        for u in US_POOL:
+            cases.append({"k": "ts", "s": "i%d" % s, "us": "i%d" % u})
+    for tok in ["bT", "bF"] + OTHERS:
+        cases.append({"k": "ts", "s": tok, "us": "i0"})
+        cases.append({"k": "ts", "s": "i0", "us": tok})
+        cases.append({"k": "ts", "s": "i%d" % (MAX_S + 1), "us": tok})
+        cases.append({"k": "ts", "s": tok, "us": "i-1"})
+    for _ in range(3000 if quick else 60000):
+        cases.append({"k": "ts", "s": rnd_pv(rng, rnd_sec(rng)), "us": rnd_pv(rng, rnd_us(rng))})
+    # 3. from_numeric_offset with real timestamps
+    for _ in range(2000 if quick else 40000):
+        off = rnd_off16(rng)
+        cases.append({"k": "num", "s": "i%d" % rnd_sec(rng), "us": "i%d" % rnd_us(rng), "off": off,
+                      "neg": rng.random() < (0.5 if off <= 0 else 0.1)})
+    # 4. aware datetimes: every fixed whole-minute offset, a few other offsets, named zones
+    reps = 2 if quick else 12
+    for k in range(-1439, 1440):
+        for _ in range(reps):
+            cases.append(gen_dt_fixed(rng, 60 * k))
+    for _ in range(400 if quick else 8000):
+        cases.append(gen_dt_fixed(rng, rng.choice([561, -561, 1, -1, 59, -59, 86399, -86399, rng.randrange(-86399, 86400)])))
+    if ZONES:
+        for _ in range(3000 if quick else 120000):
+            cases.append(gen_dt_zone(rng))
+    if not quick:
+        for _ in range(250000):
+            cases.append(gen_dt_fixed(rng, 60 * rng.randrange(-1439, 1440)))
+    cases.append({"k": "naive", "wall_us": 0})
+    cases.append({"k": "naive", "wall_us": 978307200 * M + 5})
+    # 5. dict forms
+    for _ in range(3000 if quick else 60000):
+        r = rng.random()
+        t = rnd_tsrepr(rng)
+        if r < 0.45:
+            ob = rnd_offset_bytes(rng)
+            cases.append({"k": "dnew", "t": t, "ob": ob.hex() if rng.random() < 0.97 else "nonbytes"})
+        elif r < 0.9:
+            off = rnd_off16(rng) if rng.random() < 0.93 else None
+            neg = rng.choice([None, False, False, True]) if (off is None or off <= 0 or rng.random() < 0.1) else rng.choice([None, False])
+            cases.append({"k": "dold", "t": t, "off": off, "neg": neg})
+        elif r < 0.97:
+            cases.append({"k": "int", "v": ("i%d" % rnd_sec(rng)) if rng.random() < 0.9 else rng.choice(["bT", "bF"])})
+        else:
+            cases.append({"k": "other", "v": rng.choice(["o:none", "o:float", "o:str"])})
+    # 6. ISO-8601 strings
+    for s in ["2020-01-01T00:00:00-00:00", "2020-01-01T00:00:00+00:00", "1969-12-31T23:59:59.999999-00:00",
+              "1969-12-31T23:59:59.5+05:30", "0001-01-02T00:00:00Z", "9999-12-31T22:59:59Z", "9999-12-31T23:59:59Z",
+              "0001-01-01T00:00:00Z", "2020-01-01T00:00:00.000001-0000", "2020-01-01 00:00:00-00"]:
+        m = re.match(r"(\d+)-(\d+)-(\d+)[T ](\d+):(\d+):(\d+)(?:\.(\d+))?(.*)$", s)
+        y, mo, d, H, Mi, S = (int(x) for x in m.groups()[:6])
+        frac, tz = m.group(7) or "", m.group(8)
+        off = 0
+        mt = re.match(r"([+-])(\d\d):?(\d\d)?$", tz)
+        if mt:
+            off = (int(mt.group(2)) * 60 + int(mt.group(3) or 0)) * (1 if mt.group(1) == "+" else -1)
+        cases.append({"k": "iso", "str": s, "exp_epoch_s": calendar.timegm((y, mo, d, H, Mi, S)) - off * 60,
+                      "exp_us": int((frac + "000000")[:6]) if frac else 0, "exp_off": off,
+                      "minus0": tz in ("-00:00", "-0000", "-00")})
+    for _ in range(2000 if quick else 40000):
+        cases.append(gen_iso(rng))
+    # 7. raw offset bytes in the modelled domain
+    for _ in range(1500 if quick else 30000):
+        ob = rnd_offset_bytes(rng)
+        if re.fullmatch(rb"[+-][0-9]+", ob):
+            cases.append({"k": "pob", "ob": ob.hex()})
+    return cases
+
+
+def nontrivial(c):
+    k = c["k"]
+    if k == "grid":
+        return True
+    if k in ("ts", "num"):
+        return not (c["s"].startswith("i") and c["us"] == "i0" and int(c["s"][1:]) >= 0) or (k == "num" and c["off"] % 60 != 0)
+    if k == "dt":
+        return c["wall_us"] % M != 0 or c.get("off_s", 1) % 3600 != 0 or c["wall_us"] < 0
+    if k == "iso":
+        return c["exp_us"] != 0 or c["exp_off"] % 60 != 0 or c["minus0"] or c["exp_epoch_s"] < 0
+    if k in ("dnew", "dold"):
+        return c["t"] != "dict:i0|i0"
+    return True
+
+
+def classify(c):
+    k = c["k"]
+    ks = ["kind=" + k]
+    if k == "grid":
+        ks.append("grid-points=%d" % (2 * c["n"]))
+    if k == "dt":
+        ks.append("dt:named-zone" if "zone" in c else ("dt:whole-minute" if c["off_s"] % 60 == 0 else "dt:odd-offset"))
+        ks.append("dt:us!=0" if c["wall_us"] % M else "dt:us=0")
+    if k == "ts" and c["s"].startswith("i") and c["us"].startswith("i"):
+        s, u = int(c["s"][1:]), int(c["us"][1:])
+        ks.append("ts:" + ("in-range" if MIN_S <= s <= MAX_S and 0 <= u < M else "rejected"))
+        if 0 < u < M:
+            ks.append("ts:trailing-zeros" if u % 10 == 0 else "ts:no-trailing-zero")
+    if k in ("num", "dold") and c.get("off") is not None:
+        off, neg = c["off"], bool(c.get("neg"))
+        ks.append("off:" + ("neg&pos->assert" if neg and off > 0 else "out-of-16bit" if not -32768 <= off < 32768
+                            else "-0000" if neg and off == 0 else "zero" if off == 0 else "negative" if off < 0 else "positive"))
+    if k == "iso":
+        ks.append("iso:-00:00" if c["minus0"] else "iso:other")
+    if k == "pob":
+        ks.append("pob:short" if len(c["ob"]) // 2 <= 3 else "pob:long")
+    return ks
+
+
+# ---------------------------------------------------------------- implementation side
+def show_impl(x):
+    res = {"s": x.timestamp.seconds, "us": x.timestamp.microseconds, "ob": core.hx(x.offset_bytes)}
+    try:
+        res["om"] = x.offset_minutes()
+    except Exception as e:
+        res["om"] = "!" + core.exc_class(e)
+    res["fd"] = core.hx(format_date(x.timestamp))
+    res["ap"] = core.hx(format_author_data(NOBODY, x))
+    try:
+        res["td"] = abstr(x.to_datetime())
+    except Exception as e:
+        res["td"] = "!" + core.exc_class(e)
+    return res
+
+
+def grid_impl(lo, n):
+    t = Timestamp(seconds=0, microseconds=0)
+    out = []
+    for off in range(lo, lo + n):
+        for neg in (False, True):
+            try:
+                x = TSTZ.from_numeric_offset(t, off, neg)
+                out.append(x.offset_bytes.hex() + ":" + str(x.offset_minutes()))
+            except Exception as e:
+                out.append("!" + core.exc_class(e))
+    return out
+
+
+def impl(c):
+    k = c["k"]
+    try:
+        if k == "grid":
+            return {"grid": grid_impl(c["lo"], c["n"])}
+        if k == "ts":
+            t = Timestamp(seconds=pv(c["s"]), microseconds=pv(c["us"]))
+            fd = format_date(t)
+            fd2 = format_date({"seconds": pv(c["s"]), "microseconds": pv(c["us"])})
+            return {"s": t.seconds, "us": t.microseconds, "fd": core.hx(fd), "fd_dict": core.hx(fd2)}
+        if k == "num":
+            t = Timestamp(seconds=pv(c["s"]), microseconds=pv(c["us"]))
+            return show_impl(TSTZ.from_numeric_offset(t, c["off"], c["neg"]))
+        if k == "dnew":
+            d = {"offset_bytes": "+0000" if c["ob"] == "nonbytes" else core.unhx(c["ob"] or ".")}
+            if c["t"] != "missing":
+                d["timestamp"] = tsrepr_value(c["t"])
+            return show_impl(TSTZ.from_dict(d))
+        if k == "dold":
+            d = {}
+            if c["t"] != "missing":
+                d["timestamp"] = tsrepr_value(c["t"])
+            if c["off"] is not None:
+                d["offset"] = c["off"]
+            if c["neg"] is not None:
+                d["negative_utc"] = c["neg"]
+            return show_impl(TSTZ.from_dict(d))
+        if k == "dt":
+            dt = dt_of_case(c)
+            r1 = show_impl(TSTZ.from_datetime(dt))
+            r2 = show_impl(TSTZ.from_dict(dt))
+            if r1 != r2:
+                return {"error": "from_datetime and from_dict(datetime) differ"}
+            return r1
+        if k == "naive":
+            return show_impl(TSTZ.from_datetime(mk_wall(c["wall_us"])))
+        if k == "int":
+            return show_impl(TSTZ.from_dict(pv(c["v"])))
+        if k == "other":
+            return show_impl(TSTZ.from_dict(pv(c["v"])))
+        if k == "iso":
+            return show_impl(TSTZ.from_iso8601(c["str"]))
+        if k == "pob":
+            return {"om": TSTZ._parse_offset_bytes(core.unhx(c["ob"]))}
+    except Exception as e:
+        return {"error": core.exc_class(e)}
+    return {"error": "bad case"}
+
+
+# ---------------------------------------------------------------- model side
+def requests(c):
+    k = c["k"]
+    if k == "grid":
+        return ["grid %d %d" % (c["lo"], c["n"])]
+    if k == "ts":
+        return ["ts %s %s" % (pv_tok(c["s"]), pv_tok(c["us"]))]
+    if k == "num":
+        return ["num %s %s %d %s" % (pv_tok(c["s"]), pv_tok(c["us"]), c["off"], "T" if c["neg"] else "F")]
+    if k == "dnew":
+        return ["dnew %s %s" % (tsrepr_tok(c["t"]), c["ob"] if c["ob"] else ".")]
+    if k == "dold":
+        return ["dold %s %s %s" % (tsrepr_tok(c["t"]), "absent" if c["off"] is None else c["off"],
+                                   "absent" if c["neg"] is None else ("T" if c["neg"] else "F"))]
+    if k == "dt":
+        a = abstr(dt_of_case(c))          # the input datetime as the model sees it (zoneinfo gives the offset)
+        if a is None:
+            return []
+        return ["dt %d %d" % (a[0], a[1])]
+    if k == "naive":
+        return ["naive"]
+    if k == "int":
+        return ["int " + pv_tok(c["v"])]
+    if k == "other":
+        return ["other"]
+    if k == "iso":
+        import iso8601
+        try:
+            dt = iso8601.parse_date(c["str"])          # the ISO parser is an oracle of the model
+        except Exception:
+            return []
+        a = abstr(dt)
+        return ["iso %d %d %s" % (a[0], a[1], "T" if dt.tzname() == "-00:00" else "F")]
+    if k == "pob":
+        return ["pob " + c["ob"]]
+    return []
+
+
+def _num(s):
+    return ("!" + ERRMAP.get(s[1:], s[1:])) if s.startswith("!") else int(s)
+
+
+def model(c, resp):
+    if not resp:
+        return {"skipped": True}
+    r = resp[0].split(" ")
+    if r[0] == "err":
+        return {"error": ERRMAP.get(r[1], " ".join(r[1:]))}
+    if r[0] != "ok":
+        return {"model_error": resp[0]}
+    k = c["k"]
+    if k == "grid":
+        out = []
+        for e in r[1].split(","):
+            out.append(e if ":" in e else "!" + ERRMAP.get(e, e))
+        return {"grid": out}
+    if k == "ts":
+        return {"s": int(r[1]), "us": int(r[2]), "fd": r[3], "pd": r[4]}
+    if k == "pob":
+        return {"om": int(r[1])}
+    td = r[7]
+    return {"s": int(r[1]), "us": int(r[2]), "ob": r[3], "om": _num(r[4]), "fd": r[5], "ap": r[6],
+            "td": ("!" + ERRMAP.get(td[1:], td[1:])) if td.startswith("!") else [int(x) for x in td.split(",")]}
+
+
+# ---------------------------------------------------------------- the property on the implementation
+def exp_text(s, us):
+    """None if (text) is the exact decimal of seconds and microseconds"""
+    def chk(text):
+        if us == 0:
+            return None if text == str(s).encode() else "date text %r is not the decimal of %d" % (text, s)
+        head, dot, frac = text.partition(b".")
+        if not dot or head != str(s).encode():
+            return "date text %r does not start with the decimal of %d followed by '.'" % (text, s)
+        if not (1 <= len(frac) <= 6 and frac.isdigit() and frac.isascii()):
+            return "fraction %r is not 1..6 digits" % frac
+        if frac.endswith(b"0"):
+            return "fraction %r keeps a trailing zero" % frac
+        if int(frac) * 10 ** (6 - len(frac)) != us:
+            return "fraction %r does not denote %d microseconds exactly" % (frac, us)
+        return None
+    return chk
+
+
+OFF_RE = re.compile(rb"[+-][0-9]{4,}")
+
+
+def oracle_offset(off, neg, ok, ob, om):
+    """from_numeric_offset(off, neg) on the 16-bit range"""
+    if not -32768 <= off <= 32767:
+        return None
+    if neg and off > 0:
+        # outside the property's domain (negative UTC is meaningful for offset 0, harmless below): rejecting is fine,
+        # accepting is fine only if the numeric form still round-trips
+        if ok and om != off:
+            return "offset %d with negative_utc accepted but reads back as %r" % (off, om)
+        return None
+    if not ok:
+        return "from_numeric_offset(%d, %s) rejected" % (off, neg)
+    if om != off:
+        return "offset %d recorded as %r reads back as %r" % (off, ob, om)
+    if not OFF_RE.fullmatch(ob):
+        return "recorded offset bytes %r are not [+-]HHMM" % ob
+    if (ob == b"-0000") != (off == 0 and neg):
+        return "offset %d negative_utc=%s recorded as %r" % (off, neg, ob)
+    return None
+
+
+def oracle_tstz_common(ires):
+    """format_date text of an accepted object, and the manifest part"""
+    if "fd" in ires and isinstance(ires.get("s"), int):
+        why = exp_text(ires["s"], ires["us"])(core.unhx(ires["fd"]))
+        if why:
+            return why
+        if not (MIN_S <= ires["s"] <= MAX_S and MIN_US <= ires["us"] <= MAX_US):
+            return "out-of-range timestamp (%d, %d) accepted" % (ires["s"], ires["us"])
+        if "ap" in ires and core.unhx(ires["ap"]) != b" " + core.unhx(ires["fd"]) + b" " + core.unhx(ires["ob"]):
+            return "manifest date part is not ' <date> <offset bytes>'"
+    return None
+
+
+def oracle(c, ires, mres):
+    k = c["k"]
+    ok = "error" not in ires
+    if ires.get("error") in ("bad case", "Timeout") or (not ok and ires["error"].startswith("from_datetime and")):
+        return "implementation: " + ires["error"]
+    why = oracle_tstz_common(ires) if ok else None
+    if why:
+        return why
+    if k == "grid":
+        i = 0
+        for off in range(c["lo"], c["lo"] + c["n"]):
+            for neg in (False, True):
+                e = ires["grid"][i]
+                i += 1
+                good = not e.startswith("!")
+                ob, om = (bytes.fromhex(e.split(":")[0]), int(e.split(":")[1])) if good else (None, None)
+                why = oracle_offset(off, neg, good, ob, om)
+                if why:
+                    return why
+        return None
+    if k == "ts":
+        s, u = pv(c["s"]), pv(c["us"])
+        legal = type(s) is int and type(u) is int and MIN_S <= s <= MAX_S and MIN_US <= u <= MAX_US
+        if legal and not ok:
+            return "Timestamp(%r, %r) rejected" % (s, u)
+        if not legal and ok:
+            return "Timestamp(%r, %r) accepted" % (s, u)
+        if not legal and ires["error"] != "ValueError":
+            return "Timestamp(%r, %r) rejected with %s, not a ValueError" % (s, u, ires["error"])
+        if ok:
+            if (ires["s"], ires["us"]) != (s, u):
+                return "Timestamp(%r, %r) stores (%r, %r)" % (s, u, ires["s"], ires["us"])
+            if ires["fd"] != ires["fd_dict"]:
+                return "format_date differs between the object and its dict"
+        return None
+    if k == "num":
+        s, u = pv(c["s"]), pv(c["us"])
+        if not (MIN_S <= s <= MAX_S and MIN_US <= u <= MAX_US):
+            return None if not ok else "out-of-range timestamp accepted"
+        if ok and (ires["s"], ires["us"]) != (s, u):
+            return "timestamp changed"
+        return oracle_offset(c["off"], c["neg"], ok, core.unhx(ires["ob"]) if ok else None, ires.get("om"))
+    if k == "dold":
+        if ok and c["off"] is not None:
+            return oracle_offset(c["off"], bool(c["neg"]), ok, core.unhx(ires["ob"]), ires.get("om"))
+        return None
+    if k == "dnew":
+        if ok and c["ob"] != "nonbytes" and core.unhx(ires["ob"]) != core.unhx(c["ob"] or "."):
+            return "offset_bytes %r recorded as %r" % (core.unhx(c["ob"] or "."), core.unhx(ires["ob"]))
+        return None
+    if k == "int":
+        v = pv(c["v"])
+        if type(v) is int and MIN_S <= v <= MAX_S:
+            if not ok or (ires["s"], ires["us"], core.unhx(ires["ob"])) != (v, 0, b"+0000"):
+                return "from_dict(%d) is not (%d, 0, +0000)" % (v, v)
+        return None
+    if k == "dt":
+        dt = dt_of_case(c)
+        a = abstr(dt)
+        if a is None:
+            return None
+        e, off_s = a
+        secs, us = e // M, e % M            # floor and remainder by integer arithmetic
+        if not (MIN_S <= secs <= MAX_S):
+            return None if not ok else "datetime outside the timestamp range accepted"
+        if not ok:
+            return "aware datetime %s (in range) rejected with %s" % (dt.isoformat(), ires["error"])
+        if (ires["s"], ires["us"]) != (secs, us):
+            return "datetime %s: seconds/microseconds (%d, %d), expected floor/remainder (%d, %d)" % (
+                dt.isoformat(), ires["s"], ires["us"], secs, us)
+        if off_s % 60 == 0:
+            if ires["om"] != off_s // 60:
+                return "datetime %s: offset %r minutes, expected %d" % (dt.isoformat(), ires["om"], off_s // 60)
+            if ires["td"] != [e, off_s]:
+                return "datetime %s does not round-trip: to_datetime gives %r" % (dt.isoformat(), ires["td"])
+            back = TSTZ.from_datetime(dt).to_datetime()
+            if back != dt or back.utcoffset() != dt.utcoffset():
+                return "datetime %s does not round-trip" % dt.isoformat()
+            if core.unhx(ires["ob"]) == b"-0000":
+                return "-0000 produced from a datetime"
+        elif isinstance(ires["td"], list) and ires["td"][0] != e:
+            return "datetime %s: instant not kept" % dt.isoformat()
+        return None
+    if k == "iso":
+        if not (MIN_S <= c["exp_epoch_s"] <= MAX_S):
+            return None
+        if not ok:
+            return "ISO string %r (in range) rejected with %s" % (c["str"], ires["error"])
+        if (ires["s"], ires["us"]) != (c["exp_epoch_s"], c["exp_us"]):
+            return "ISO string %r: (%d, %d), expected (%d, %d)" % (c["str"], ires["s"], ires["us"], c["exp_epoch_s"], c["exp_us"])
+        if ires["om"] != c["exp_off"]:
+            return "ISO string %r: offset %r, expected %d" % (c["str"], ires["om"], c["exp_off"])
+        if (core.unhx(ires["ob"]) == b"-0000") != c["minus0"]:
+            return "ISO string %r: offset bytes %r" % (c["str"], core.unhx(ires["ob"]))
+        return None
+    return None
+
+
+# ---------------------------------------------------------------- model vs implementation
+def compare(c, ires, mres):
+    if mres.get("skipped"):
+        return None
+    if "model_error" in mres:
+        return "model failed: " + str(mres)
+    if c["k"] == "ts" and "pd" in mres and "error" not in ires:
+        if mres["pd"] != "%d,%d" % (ires["s"], ires["us"]):
+            return "independent decoder reads %s from the date text of (%d, %d)" % (mres["pd"], ires["s"], ires["us"])
+    if "error" in mres or "error" in ires:
+        if mres.get("error") == "Unmodelled":
+            return None
+        if mres.get("error") != ires.get("error"):
+            return "implementation %s, model %s" % (ires.get("error", "ok"), mres.get("error", "ok"))
+        return None
+    for f in ("grid", "s", "us", "ob", "om", "fd", "ap", "td"):
+        if f in mres:
+            if mres[f] == "!Unmodelled":
+                continue
+            if f == "grid":
+                if mres[f] != ires[f]:
+                    bad = [i for i, (a, b) in enumerate(zip(mres[f], ires[f])) if a != b][:3]
+                    return "grid differs at %s" % [(c["lo"] + i // 2, bool(i % 2), mres[f][i], ires[f][i]) for i in bad]
+                continue
+            if mres[f] != ires.get(f):
+                return "%s: implementation %r, model %r" % (f, ires.get(f), mres[f])
+    return None
+
+
+def shrink(c):
+    if c["k"] == "grid" and c["n"] > 1:
+        h = c["n"] // 2
+        yield {"k": "grid", "lo": c["lo"], "n": h}
+        yield {"k": "grid", "lo": c["lo"] + h, "n": c["n"] - h}
+    if c["k"] == "dt":
+        if c["wall_us"] % M:
+            yield dict(c, wall_us=c["wall_us"] - c["wall_us"] % M)
+        if "off_s" in c and c["off_s"]:
+            yield dict(c, off_s=0)
